@@ -19,7 +19,7 @@ def lp(ts, fac, pad=0.2):
     lpad = int(np.ceil(ts.shape[0] * pad))
     ts_ = np.pad(ts, lpad, mode="edge")
     ts_ = ft.lp(ts_, 1, np.array(fac) / 2)
-    return ts_[lpad:-lpad]
+    return ts_[lpad:ts_.shape[0] - lpad]
 
 
 def rolling_window(x, window_len=11, window="blackman"):
